@@ -37,7 +37,7 @@ import subprocess
 import sys
 import time
 
-from z3 import (And, Array, BitVec, BitVecSort, BitVecVal, BoolVal, Extract, Not, Or, Select, Solver, Store, UGE,
+from z3 import (And, Array, BitVec, BitVecSort, BitVecVal, BoolVal, Extract, Not, Or, Select, Solver, Store, UGE, If,
                 ULE, ULT, is_bv_value, sat, simplify, unsat)
 
 REPO = os.environ.get('VERIF_REPO', '/repo')
@@ -299,7 +299,7 @@ def parse_template(info):
             continue
         parts = line.split(None, 1)
         mn = parts[0].lower()
-        ops = [parse_operand(x) for x in split_top(parts[1])] if len(parts) > 1 else []
+        ops = [parse_operand(x) for x in split_top(parts[1])] if len(parts) > 1 and mn not in ('je', 'jz', 'jne', 'jnz') else []
         kinds = tuple(o[0] for o in ops)
         if mn in ('leaq', 'lea') and kinds == ('riprel', 'reg'):
             prog.append(('lea_label', ops[0][1], ops[1][1]))
@@ -321,6 +321,10 @@ def parse_template(info):
             prog.append(('add_ir', -ops[0][1], ops[1][1]))
         elif mn == 'jmp' and kinds == ('ind',):
             prog.append(('jmp_ind', ops[0][1]))
+        elif mn in ('cmpq', 'cmp') and kinds == ('reg', 'reg'):
+            prog.append(('cmp_rr', ops[0][1], ops[1][1]))
+        elif mn in ('je', 'jz', 'jne', 'jnz') and len(parts) > 1 and re.fullmatch(r'\w+', parts[1].strip()):
+            prog.append(('jcc', 'e' if mn in ('je', 'jz') else 'ne', parts[1].strip()))
         else:
             unsupported('instruction not modelled: %r' % line)
     return prog
@@ -407,6 +411,36 @@ class Machine:
             elif op == 'jmp_ind':
                 ex = ('jump', regs[ins[1]])
                 break
+            elif op == 'cmp_rr':
+                # AT&T: cmp a,b sets flags from b - a ; only (in)equality is modelled
+                self.last_cmp = (regs[ins[2]], regs[ins[1]])
+                flags = True
+            elif op == 'jcc':
+                if getattr(self, 'last_cmp', None) is None:
+                    unsupported('conditional jump without a preceding cmp')
+                cond = (self.last_cmp[0] == self.last_cmp[1]) if ins[1] == 'e' else (self.last_cmp[0] != self.last_cmp[1])
+                taddr, tpos = self.resolve_label(ins[2], i)
+                rt = self.run(regs, mem, start=tpos)      # branch taken
+                rn = self.run(regs, mem, start=i + 1)     # fall through
+                def as_jump(r, started_at):
+                    if r['exit'][0] == 'jump':
+                        return r['exit'][1]
+                    # falling off the end of the template after a label == arriving at that label
+                    last_label = None
+                    for k in range(len(self.prog) - 1, -1, -1):
+                        if self.prog[k][0] == 'label':
+                            last_label = k
+                            break
+                    if last_label is None or any(self.prog[k][0] != 'label' for k in range(last_label, len(self.prog))):
+                        unsupported('conditional branch whose path ends in the middle of the template')
+                    return self.addr_of_label(self.prog[last_label][1], last_label)
+                tgt = If(cond, as_jump(rt, tpos), as_jump(rn, i + 1))
+                mregs = {}
+                for k in set(rt['regs']) | set(rn['regs']):
+                    mregs[k] = If(cond, rt['regs'].get(k, regs.get(k)), rn['regs'].get(k, regs.get(k)))
+                return dict(regs=mregs, mem=If(cond, rt['mem'], rn['mem']), exit=('jump', tgt),
+                            writes=writes + rt['writes'] + rn['writes'], reads=reads + rt['reads'] + rn['reads'],
+                            regs_written=rw | rt['regs_written'] | rn['regs_written'], flags_written=True)
             else:
                 raise AssertionError(op)
             i += 1
